@@ -107,7 +107,7 @@ class HierarchicalProblem(up.model.problem.Problem):
         new_p._initial_defaults = self._initial_defaults.copy()
         new_p._fluents_defaults = self._fluents_defaults.copy()
         new_p._initial_task_network = self._initial_task_network.clone()
-        new_p._methods = self._methods.copy()
+        new_p._methods = {n: m.clone() for n, m in self._methods.items()}
         new_p._abstract_tasks = self._abstract_tasks.copy()
         return new_p
 
